@@ -159,6 +159,7 @@ type FuncInfo struct {
 	nested  int
 	loadAtoms map[string]ssa.Value
 	ra      map[[2]*ssa.BasicBlock]map[*ssa.BasicBlock]bool
+	noAxioms int // 0 unknown, 1 axioms allowed, 2 not allowed
 }
 
 func (c *Ctx) info(fn *ssa.Function) *FuncInfo {
@@ -1348,6 +1349,7 @@ var entailBudget = 1 << 30
 // {facts, goal ≥ 1} has no rational solution. (Sound for integers; the depth
 // argument is kept for the callers and only scales the row cap.)
 var statProve, statEntail, statFM int
+var traceProve = os.Getenv("LZTRACE") != ""
 
 func entails(facts []Fact, goal Lin, depth int) bool {
 	if goal.isConst() && goal.c <= 0 {
@@ -1628,7 +1630,7 @@ func (fi *FuncInfo) proveLE1(goal Lin, conds []Cond, extra []Fact, hyp map[strin
 	}
 	facts = append(facts, fi.valueFacts(vals)...)
 	for a := range seenAtom {
-		facts = append(facts, axiomFacts(a)...)
+		facts = append(facts, fi.axioms(a)...)
 	}
 	// L ≠ 0 together with L ≥ 0 (resp. ≤ 0) gives L ≥ 1 (resp. ≤ −1)
 	for _, f := range facts {
@@ -1651,10 +1653,16 @@ func (fi *FuncInfo) proveLE1(goal Lin, conds []Cond, extra []Fact, hyp map[strin
 		}
 	}
 	if entails(facts, goal, 4) {
+		if traceProve {
+			fmt.Fprintf(os.Stderr, "%*sTRACE entails %s ≤ 0 from %s\n", depth*2, "", goal, factStrings(facts))
+		}
 		return true
 	}
 	// ex falso: contradictory conditions make the point unreachable
 	if len(extra) > 0 && depth <= 2 && entails(facts, linConst(1), 3) {
+		if traceProve {
+			fmt.Fprintf(os.Stderr, "%*sTRACE exfalso for %s from %s\n", depth*2, "", goal, factStrings(facts))
+		}
 		return true
 	}
 	if depth >= 6 {
@@ -1757,9 +1765,42 @@ func (fi *FuncInfo) proveLE1(goal Lin, conds []Cond, extra []Fact, hyp map[strin
 				// back edge: coinduction. The incoming values are expressed over
 				// the PREVIOUS instance of the header's phis, so only the edge
 				// conditions (evaluated in that iteration) and the induction
-				// hypothesis may be used, not the conditions of the site.
-				ex = append(append([]Fact{}, extra...), Fact{goal, LE})
-				cs = fi.edgeConds(pred, phi.Block())
+				// hypothesis may be used, not the conditions of the site. To keep
+				// them apart from facts about the FINAL values (site conditions,
+				// conditions met later on the way to other loops), every value
+				// defined inside this loop is renamed (primed) in the hypothesis,
+				// the edge conditions and the goal of this step.
+				var lp *Loop
+				for _, l := range fi.loops {
+					if l.Header == phi.Block() {
+						lp = l
+					}
+				}
+				prime := func(l Lin) Lin { return l }
+				if lp != nil {
+					prime = func(l Lin) Lin { return fi.primeLoopAtoms(l, lp) }
+				}
+				ex = append([]Fact{}, extra...)
+				var vals []ssa.Value
+				addVals := func(l Lin) {
+					for a := range l.t {
+						if v := fi.atomValue(a); v != nil {
+							vals = append(vals, v)
+						}
+					}
+				}
+				for _, f := range fi.factsOf(fi.edgeConds(pred, phi.Block())) {
+					ex = append(ex, Fact{prime(f.L), f.Op})
+					addVals(f.L)
+				}
+				ex = append(ex, Fact{prime(goal), LE})
+				addVals(goal)
+				addVals(sub)
+				for _, vf := range fi.valueFacts(vals) {
+					ex = append(ex, Fact{prime(vf.L), vf.Op})
+				}
+				sub = prime(sub)
+				cs = nil
 			} else {
 				cs = append(append([]Cond{}, conds...), fi.edgeConds(pred, phi.Block())...)
 				// on a forward edge the phi's current value IS the incoming value
@@ -2090,7 +2131,7 @@ func (fi *FuncInfo) proveFlat(goal Lin, conds []Cond, extra []Fact) bool {
 	}
 	facts = append(facts, fi.valueFacts(vals)...)
 	for a := range rel {
-		facts = append(facts, axiomFacts(a)...)
+		facts = append(facts, fi.axioms(a)...)
 	}
 	saved := entailBudget
 	entailBudget = 200000
@@ -2117,4 +2158,74 @@ func (fi *FuncInfo) proveCheap(goal Lin, conds []Cond, extra []Fact) bool {
 		fmt.Fprintf(os.Stderr, "FLAT-FAIL %s: %s ≤ 0 ; facts %s ; extra %s\n", fnName(fi.fn), goal, factStrings(fi.factsOf(conds)), factStrings(extra))
 	}
 	return fi.proveLE0(goal, conds, extra, map[string]bool{}, 0)
+}
+
+
+// atomValue maps an atom (possibly wrapped in len()/cap()) to the SSA value it names.
+func (fi *FuncInfo) atomValue(a string) ssa.Value {
+	name := a
+	for _, w := range []string{"len(", "cap("} {
+		if strings.HasPrefix(name, w) && strings.HasSuffix(name, ")") {
+			name = name[len(w) : len(name)-1]
+		}
+	}
+	if v, ok := fi.atomValues()[name]; ok {
+		return v
+	}
+	if v, ok := fi.loadAtoms[name]; ok {
+		return v
+	}
+	if v, ok := fi.loadAtoms[a]; ok {
+		return v
+	}
+	return nil
+}
+
+// primeLoopAtoms renames every atom whose value is defined inside loop lp:
+// in a coinductive step these denote values of the previous iteration and
+// must not be confused with the final values that site conditions mention.
+func (fi *FuncInfo) primeLoopAtoms(l Lin, lp *Loop) Lin {
+	out := Lin{c: l.c, t: map[string]int64{}}
+	for a, co := range l.t {
+		na := a
+		if v := fi.atomValue(a); v != nil {
+			if in, ok := v.(ssa.Instruction); ok && in.Block() != nil && lp.Blocks[in.Block()] && !strings.HasSuffix(a, "′") {
+				na = a + "′"
+			}
+		}
+		out.t[na] += co
+		if out.t[na] == 0 {
+			delete(out.t, na)
+		}
+	}
+	return out
+}
+
+
+// axioms: the Verify-established ranges may be used only in code that runs
+// on a verified configuration. Inside the configuration methods themselves
+// (SetDefaults, Verify, …: receiver is a config type) and inside the
+// initialisers that call them, the fields may still hold unverified values.
+func (fi *FuncInfo) axioms(atom string) []Fact {
+	if fi.noAxioms == 0 {
+		fi.noAxioms = 1
+		fn := fi.fn
+		name := fn.Name()
+		if name == "init" || name == "Init" || name == "NewParser" || name == "NewDecoder" || name == "SetDefaults" || name == "Verify" {
+			fi.noAxioms = 2
+		}
+		if recv := fn.Signature.Recv(); recv != nil {
+			t := recv.Type()
+			if p, ok := t.(*types.Pointer); ok {
+				t = p.Elem()
+			}
+			if n, ok := t.(*types.Named); ok && strings.HasSuffix(strings.ToLower(n.Obj().Name()), "config") {
+				fi.noAxioms = 2
+			}
+		}
+	}
+	if fi.noAxioms == 2 {
+		return nil
+	}
+	return axiomFacts(atom)
 }
